@@ -609,8 +609,8 @@ def to_V(ctx: Ctx, x: Any) -> z3.ExprRef:
     raise OutOfReach(f"cannot encode {type(x).__name__} value as a torch argument: {x!r}")
 
 
-def backward(ctx: Ctx, out: SymTensor, g: LinComb, interp: Any) -> Dict[int, Tuple[Node, LinComb]]:
-    """Symbolic reverse mode: returns {leaf.id: (leaf, grad)}."""
+def backward(ctx: Ctx, out: SymTensor, g: LinComb, interp: Any, all_nodes: bool = False) -> Dict[int, Tuple[Node, LinComb]]:
+    """Symbolic reverse mode: returns {leaf.id: (leaf, grad)} (every node with all_nodes)."""
     grads: Dict[int, LinComb] = {}
     nodes: Dict[int, Node] = {}
     if out.node is None:
@@ -635,8 +635,9 @@ def backward(ctx: Ctx, out: SymTensor, g: LinComb, interp: Any) -> Dict[int, Tup
         gn = grads.get(nid)
         if gn is None:
             continue
-        if isinstance(n, Leaf):
+        if isinstance(n, Leaf) or all_nodes:
             result[nid] = (n, gn)
+        if isinstance(n, Leaf):
             continue
         parts = n.vjp(ctx, gn, interp)
         for inp, p in zip(n.inputs, parts):
